@@ -23,8 +23,8 @@ def main():
     tables.gen_utf8()
     tables.gen_tables()
     # Coq: everything
-    V.coq_project()
-    rc, out = V.sh("timeout 3000 make -k -j%d 2>&1 | grep -v '^Closed under\\|^$' | tail -40" % V.NPROC, cwd=V.COQ,
+    mk = V.coq_project()
+    rc, out = V.sh("timeout 3000 make -f " + mk + " -k -j%d 2>&1 | grep -v '^Closed under\\|^$' | tail -40" % V.NPROC, cwd=V.COQ,
                    timeout=3100)
     print(out[-3000:], flush=True)
     # sanitizer variants used by some checks are built lazily by those checks (cached under .build/)
